@@ -204,7 +204,7 @@ fn witness(rep: &mut Report, plain: &[u8], cfg: Config, seq: &[Action], v: (Stri
 }
 
 #[allow(clippy::too_many_arguments)]
-fn dfs(rep: &mut Report, ck: &mut Checker, c: &CompressorOxide, spec: &Spec, seq: &mut Vec<Action>, depth: usize, first: usize) {
+fn dfs(rep: &mut Report, ck: &mut Checker, c: &CompressorOxide, spec: &Spec, seq: &mut Vec<Action>, depth: usize, first: usize, second: Option<usize>) {
     if seq.len() == depth {
         let mut c2 = c.clone();
         let mut sp2 = spec.clone();
@@ -247,6 +247,9 @@ fn dfs(rep: &mut Report, ck: &mut Checker, c: &CompressorOxide, spec: &Spec, seq
                 if seq.is_empty() && this != first {
                     continue;
                 }
+                if seq.len() == 1 && second.map_or(false, |s2| s2 != this) {
+                    continue;
+                }
                 let a = Action { chunk, out, flush };
                 let mut c2 = c.clone();
                 let mut sp2 = spec.clone();
@@ -256,7 +259,7 @@ fn dfs(rep: &mut Report, ck: &mut Checker, c: &CompressorOxide, spec: &Spec, seq
                         rep.eval();
                         witness(rep, ck.plain, ck.cfg, seq, v);
                     }
-                    None => dfs(rep, ck, &c2, &sp2, seq, depth, first),
+                    None => dfs(rep, ck, &c2, &sp2, seq, depth, first, second),
                 }
                 seq.pop();
                 if rep.violations.len() >= rep.max_violations {
@@ -266,6 +269,9 @@ fn dfs(rep: &mut Report, ck: &mut Checker, c: &CompressorOxide, spec: &Spec, seq
         }
     }
 }
+
+/// the first DEEP_SUBJECTS subjects are also enumerated to depth 4 in the thorough tier
+const DEEP_SUBJECTS: usize = 4;
 
 fn subjects(rng: &mut Rng) -> Vec<Vec<u8>> {
     vec![Vec::new(), vec![b'z'], vec![b'a'; 300], rng.bytes(100), data::gen(rng, 11, 3000), data::gen(rng, 7, 1500)]
@@ -322,29 +328,35 @@ fn random_history(rep: &mut Report, rng: &mut Rng, k: u64) {
 }
 
 pub fn run(ctx: &Ctx, rep: &mut Report) {
-    let depth = if ctx.thorough() { 4 } else { 3 };
     let mut srng = ctx.rng("subjects", 0);
     let subs = subjects(&mut srng);
-    let n_enum = (subs.len() * CONFIGS.len() * 48) as u64;
+    // depth 3 over every subject (quick and thorough); thorough adds depth 4 over the four small
+    // subjects, one case per (subject, config, first action, second action)
+    let n3 = (subs.len() * CONFIGS.len() * 48) as u64;
+    let n4 = if ctx.thorough() { (DEEP_SUBJECTS * CONFIGS.len() * 48 * 48) as u64 } else { 0 };
     let n_rand = ctx.n(3000, 100_000);
-    for k in ctx.cases(n_enum + n_rand) {
+    for k in ctx.cases(n3 + n4 + n_rand) {
         rep.cur_case = k;
         crate::ctx::begin_case(k);
-        if k < n_enum {
-            let first = (k % 48) as usize;
-            let ci = ((k / 48) % CONFIGS.len() as u64) as usize;
-            let si = (k / 48 / CONFIGS.len() as u64) as usize;
+        if k < n3 + n4 {
+            let (si, ci, first, second, depth) = if k < n3 {
+                ((k / 48 / CONFIGS.len() as u64) as usize, ((k / 48) % CONFIGS.len() as u64) as usize, (k % 48) as usize, None, 3usize)
+            } else {
+                let j = k - n3;
+                ((j / 2304 / CONFIGS.len() as u64) as usize, ((j / 2304) % CONFIGS.len() as u64) as usize, ((j / 48) % 48) as usize, Some((j % 48) as usize), 4usize)
+            };
             let cfg = CONFIGS[ci];
             let mut ck = Checker { plain: &subs[si], cfg, buf: vec![0u8; 100_000] };
             let c = cfg.make();
             let spec = new_spec();
             let mut seq = Vec::new();
-            dfs(rep, &mut ck, &c, &spec, &mut seq, depth, first);
+            dfs(rep, &mut ck, &c, &spec, &mut seq, depth, first, second);
             let mut h = Hasher::new();
-            h.bytes(&subs[si]).u64(cfg.index()).u64(first as u64).u64(depth as u64);
+            h.bytes(&subs[si]).u64(cfg.index()).u64(first as u64).u64(second.map_or(99, |x| x as u64)).u64(depth as u64);
             rep.nontrivial(h.finish());
-            if first == 35 {
-                rep.sample(|| Json::obj(vec![("config", Json::s(&cfg.describe())), ("plain_hex", Json::s(&hex_short(&subs[si], 80))), ("plain_len", Json::u(subs[si].len())), ("enumeration", Json::s(&format!("all action sequences of depth {} starting with action #{} over (chunk 0/1/rest) x (out 0/1/5/100000) x (None/Sync/Full/Finish), each followed by a Finish drain and a decode of the delivered bytes", depth, first)))]));
+            rep.count(&format!("exhaustive_subtrees_depth{}", depth));
+            if first == 35 && second.map_or(true, |x| x == 7) {
+                rep.sample(|| Json::obj(vec![("config", Json::s(&cfg.describe())), ("plain_hex", Json::s(&hex_short(&subs[si], 80))), ("plain_len", Json::u(subs[si].len())), ("enumeration", Json::s(&format!("all action sequences of depth {} starting with action #{}{} over (chunk 0/1/rest) x (out 0/1/5/100000) x (None/Sync/Full/Finish), each followed by a Finish drain and a decode of the delivered bytes", depth, first, second.map_or(String::new(), |x| format!(", #{}", x)))))]));
             }
         } else {
             let mut rng = ctx.rng("random", k);
@@ -353,6 +365,7 @@ pub fn run(ctx: &Ctx, rep: &mut Report) {
     }
     if ctx.only_case.is_none() && ctx.tier != crate::ctx::Tier::Tiny {
         rep.count("exhaustive_spaces");
-        rep.gate("sequences_enumerated", (subs.len() * CONFIGS.len()) as u64 * 48u64.pow(depth as u32) / 2);
+        let want = (subs.len() * CONFIGS.len()) as u64 * 48u64.pow(3) / 2 + if ctx.thorough() { (DEEP_SUBJECTS * CONFIGS.len()) as u64 * 48u64.pow(4) / 2 } else { 0 };
+        rep.gate("sequences_enumerated", want);
     }
 }
